@@ -103,7 +103,8 @@ class ProgGen(object):
     """Generates a concrete program while keeping the file-view state, so that retract cycles are matched."""
 
     MISC = ["M104 S200", "M106 S255", "M107", "M400", "M140 S60", "T0", "M999", "G4 P10", "M117 hello world",
-            "M204 S500", "M204 P800 T1000", "M205 X8 Y8", "M73 P10 R5", "M73 P50", "G29", "M220 S100"]
+            "M204 S500", "M204 P800 T1000", "M205 X8 Y8", "M73 P10 R5", "M73 P50", "G29", "M220 S100", "G92"]
+    # (a bare "G92" assigns nothing in Marlin >= 1.1)
     # (M82 / M83 are deliberately absent: the filter does not interpret them - no property covers them - while the reference
     # printer does, so they would make the two disagree about the extrusion mode)
 
@@ -174,6 +175,13 @@ class ProgGen(object):
         newt = val if self.abs else cur + val
         return axis + respell(self.r, s, self.hostile), newt
 
+    def _last_e_text(self):
+        """The text of the E value the file is at, in the current unit (grid values are exact in both units)."""
+        if not self.f.get("egrid", True):
+            return fmt(self.e / self.unit, 9)
+        k = int(round(self.e / EGRID))
+        return fmt(k * EGRID, 4) if self.unit == 1.0 else fmt(k * 0.001, 3)
+
     def erel(self):
         """Relative extrusion: G91 while the G90-influences-extruder setting is on."""
         return bool(self.settings.get("g90e")) and not self.abs
@@ -183,6 +191,8 @@ class ProgGen(object):
         so that retract/recover cycles have equal length whatever the units are.  `absolute`: G92 E words are absolute
         coordinates even in relative extrusion mode."""
         base = self.e if (self.erel() and not absolute) else 0.0
+        self._e_unit = self.unit
+        self._e_exact = not (self.erel() and not absolute)
         if not self.f.get("egrid", True):
             s = fmt((target - base) / self.unit, 9)
             return "E" + respell(self.r, s, self.hostile), base + float(s) * self.unit
@@ -190,13 +200,13 @@ class ProgGen(object):
         s = fmt(k * EGRID, 4) if self.unit == 1.0 else fmt(k * 0.001, 3)
         return "E" + respell(self.r, s, self.hostile), base + float(s) * self.unit
 
-    def move(self, x=None, y=None, z=None, de=0.0, g="G1", feed=None):
+    def move(self, x=None, y=None, z=None, de=0.0, g="G1", feed=None, e_same=False):
         open_before, e_before = self.believed_open(), self.e
-        self._move(x, y, z, de, g, feed)
+        self._move(x, y, z, de, g, feed, e_same)
         if not open_before and self.believed_open():
             self.entry_e = e_before          # the file's E when the episode was entered
 
-    def _move(self, x=None, y=None, z=None, de=0.0, g="G1", feed=None):
+    def _move(self, x=None, y=None, z=None, de=0.0, g="G1", feed=None, e_same=False):
         self._before_move = (self.x, self.y, self.z, self.e)
         words = []
         if x is not None:
@@ -211,6 +221,12 @@ class ProgGen(object):
         if de:
             w, self.e = self.eword(self.e + de)
             words.append(w)
+        elif e_same and not self.hostile and (self.erel() or (getattr(self, "_e_unit", None) == self.unit
+                                                              and getattr(self, "_e_exact", False))):
+            # a travel move that repeats the current E value (some slicers write every word on every line): no filament moves.
+            # Only while the value the file is at was itself written as an absolute word in the current unit: 0.204 in and
+            # 5.1816 mm are not the same float, and neither is a sum of relative offsets and its decimal rendering.
+            words.append("E" + (fmt(0, 1) if self.erel() else self._last_e_text()))
         if feed:
             words.append("F" + fmt(feed / self.unit, 2))
         if self.hostile and len(words) > 1 and self.r.random() < 0.3:
@@ -246,6 +262,12 @@ class ProgGen(object):
             self.emit("G1 %s%s" % (w, "" if self.r.random() < self.f.get("p_nofeed", 0.1) else " F2400"))
 
     def unretract(self):
+        if self.fwret and self.f.get("fw_stray") and self.r.random() < 0.15:
+            # the file forgets the G11 (legal, if unwise): it goes on as if recovered; a stray G11 may follow much later
+            self.fwret = False
+            self.stray_g11 = True
+            self.tags.add("fw-unmatched")
+            return
         if self.fwret:
             p = self.f.get("fwparam", "")
             self.emit("G11" + ((("" if self.f.get("fwnospace") else " ") + p) if p else ""))
@@ -269,6 +291,10 @@ class ProgGen(object):
         pin = f.get("p_inside", 0.45)
         if f.get("hv") and r.random() < 0.25:
             return self.hostile_value_step()
+        if f.get("fw_stray") and not self.fwret and r.random() < (0.12 if getattr(self, "stray_g11", False) else 0.02):
+            self.stray_g11 = False
+            self.tags.add("fw-unmatched")
+            return self.emit("G11")
         if f.get("g92e_entry") and r.random() < 0.12 and self.believed_open() and not self.is_retracted() \
                 and getattr(self, "entry_e", None) is not None:
             # coincidence: inside an episode the file re-bases E to exactly the value it had when it entered
@@ -308,7 +334,8 @@ class ProgGen(object):
             z = None
             if r.random() < 0.3 and f.get("zmoves", True):
                 z = round(max(0.1, self.z + r.choice([-0.4, 0.2, 0.2, 0.6, 2.0])), 2)
-            self.move(x=x, y=y, z=z, g=r.choice(["G0", "G1"]), feed=r.choice([None, 3000, 6000]))
+            self.move(x=x, y=y, z=z, g=r.choice(["G0", "G1"]), feed=r.choice([None, 3000, 6000]),
+                      e_same=(r.random() < f.get("p_esame", 0.08)))
         elif k < 0.56:
             if self.is_retracted():
                 self.unretract()
